@@ -279,12 +279,16 @@ def mkObs (E : Env K) (P : OverlapPar K) (src band : Spec K) (binset : Option (L
 /-- `np.allclose(binset[i], x)` for one element: `|a − b| ≤ 1e-8 + 1e-5·|b|` -/
 def allcloseOne (atol rtol a b : K) : Bool := decide (|a - b| ≤ atol + rtol * |b|)
 
+/-- the bin index `sample_binned` compares a wavelength with: `np.minimum(searchsorted(binset, v), size − 1)` -/
+def binIndex (binset : List K) (v : K) : Int :=
+  ((min (searchLeft binset v) (binset.length - 1) : Nat) : Int)
+
 /-- `sample_binned(wavelengths)` in PHOTLAM: `searchsorted` (left), `allclose`, lookup -/
 def sampleBinned (atol rtol : K) (b : Bins K) (x : List K) : Except Err (List K) := do
   validateWavelengths x
-  let idx := x.map (searchLeft b.binset)
-  let hits ← idx.mapM fun i => pyIndex b.binset (i : Int)        -- `self.binset[i]`: IndexError past the end
+  let idx : List Int := x.map (binIndex b.binset)
+  let hits ← idx.mapM (pyIndex b.binset)
   if !((hits.zip x).all fun (a, v) => allcloseOne atol rtol a v) then throw .interpolationNotAllowed
-  idx.mapM fun i => pyIndex b.binflux (i : Int)
+  idx.mapM (pyIndex b.binflux)
 
 end Synphot
